@@ -4,6 +4,7 @@ C04 - markets clear and supply is fully allocated among suppliers.
 Topology grammar (specs with at least one market), exact rational solution of the emitted equations; the set of
 demanders / suppliers / holders of every market is computed from the spec, not from the library's search loops.
 """
+import json
 from fractions import Fraction
 
 from mc import core, exact, topo
@@ -32,6 +33,30 @@ def units(tier):
         out.append({'family': fam, 'labels': labels, 'spec': spec, 'order': 'canonical'})
         # the same economy declared back to front (dependencies respected): holders before issuers, markets before participants
         out.append({'family': fam, 'labels': labels + ['declared-in-reverse'], 'spec': spec, 'order': 'reverse'})
+        # a SECOND foreign producer with its own allocation rule on a market that already has one (seventh wave: the grammar
+        # itself allows one import link per market; the oracle below sums over all of them)
+        imports = [l for l in spec.get('links', []) if l[0] == 'import']
+        if len(imports) == 1 and len(imports[0]) == 3 and len(spec['countries']) >= 3:
+            for c in spec['countries']:
+                if c['code'] in imports[0][1:3]:
+                    continue
+                s2 = json.loads(json.dumps(spec))
+                s2['links'].append(['import', c['code'], imports[0][2]])
+                if topo.well_formed(s2):
+                    out.append({'family': fam, 'labels': labels + ['second-importer:%s>%s' % (c['code'], imports[0][2])], 'spec': s2, 'order': 'canonical'})
+    # in every tier: the three-zone base economy (non-unit exchange rates) with two foreign producers - same sector code, different
+    # countries - each holding its own quota of the third country's goods market
+    base3 = topo.family_three_zones()[1]
+    codes = [c['code'] for c in base3['countries']]
+    for dst in codes:
+        a, b = [x for x in codes if x != dst]
+        for first, second in ((a, b), (b, a)):
+            s2 = json.loads(json.dumps(base3))
+            s2['links'] += [['import', first, dst], ['import', second, dst]]
+            if topo.well_formed(s2):
+                for order in ('canonical', 'reverse'):
+                    out.append({'family': 'three_zones', 'labels': ['import:%s>%s' % (first, dst), 'second-importer:%s>%s' % (second, dst)] +
+                                (['declared-in-reverse'] if order == 'reverse' else []), 'spec': s2, 'order': order})
     return out
 
 
